@@ -29,9 +29,12 @@ fn e1_evidence(rep: &mut Report, results: &[(u32, e1::E1Result, Option<(usize, b
 }
 
 fn run_e1_all(cx: &Ctx, rep: &mut Report, oracles: Oracles, probes: &[Probe], depth: usize, history: bool, with_sr: bool) {
-    let seeds = alpha::seeds(cx.tier, cx.seed);
+    let base_seeds = alpha::seeds(cx.tier, cx.seed);
     let mut results = Vec::new();
     for api in APIS {
+        // model-selected seeds whose t = A s1 + s2 wraps around q join the seed alphabet
+        let mut seeds = base_seeds.clone();
+        seeds.extend(rare_keygen_seeds(api.p, cx.seed, rare_cap(cx.tier)).into_iter().map(|(_, s)| s));
         let cfg = E1Cfg { depth, seeds: seeds.clone(), oracles, probes, history_check: history };
         let r = e1::run(api, &cfg, rep);
         // stateright cross-check of the state graph (same transition function, independent explorer)
@@ -69,7 +72,7 @@ pub struct HardCase {
 
 /// Enumerate counter messages with the reference signer until every class has a member (or cap).
 pub fn hard_cases(p: &'static Params, skc: &SkCtx, cap: usize) -> (Vec<HardCase>, Vec<String>) {
-    let classes = ["iterations>=10", "hint_weight=omega", "hint_weight=omega-1", "z_norm=gamma1-beta-1", "r0_norm=gamma2-beta-1", "w_corner", "some_poly_hint_count=0", "hint_weight>=omega-3"];
+    let classes = ["iterations>=10", "hint_weight=omega", "hint_weight=omega-1", "z_norm=gamma1-beta-1", "r0_norm=gamma2-beta-1", "w_corner", "late_rejection(ct0/weight)", "hint_weight>=omega-3"];
     let mut found: Vec<Option<HardCase>> = vec![None; classes.len()];
     let chunk = 256;
     let mut base = 0usize;
@@ -90,7 +93,7 @@ pub fn hard_cases(p: &'static Params, skc: &SkCtx, cap: usize) -> (Vec<HardCase>
                 info.z_norm == p.gamma1 - p.beta - 1,
                 info.r0_norm == p.gamma2 - p.beta - 1,
                 info.w_corner,
-                info.hint_counts.iter().any(|&c| c == 0),
+                info.rejects.iter().any(|r| matches!(r, refmodel::Reject::Ct0Norm | refmodel::Reject::HintWeight)),
                 info.hint_weight + 3 >= p.omega,
             ];
             for (ci, hit) in hits.iter().enumerate() {
@@ -246,6 +249,72 @@ pub fn c03(cx: &Ctx, rep: &mut Report) {
             }
         }
     }
+    // model-guided: signing attempts whose ExpandMask counter kappa + r reaches 256 (and, thorough, 512). An honest
+    // key needs ~50 consecutive rejections for that; the valid key with every t0 coefficient = 2^12 rejects ~94% of
+    // attempts, so the reference finds such a message among a few dozen counter messages.
+    for api in APIS {
+        let p = api.p;
+        let base = refmodel::keygen_internal(p, &alpha::counter32(cx.seed, "seed", 1));
+        let skb = alpha::sk_shapes(p, &base).into_iter().find(|(n, _)| n == "t0_all_max").unwrap().1;
+        let skc = SkCtx::new(p, &skb);
+        let targets: Vec<usize> = cx.tier.pick(vec![256], vec![256, 512]);
+        let cap = cx.tier.pick(400usize, 4000);
+        let infos: Vec<(usize, usize)> = (0..cap)
+            .into_par_iter()
+            .map(|i| {
+                let m = format!("kappa-search-{i}").into_bytes();
+                let mp = refmodel::format_message(Mode::Pure, &m, b"").unwrap();
+                (i, refmodel::sign_internal_ctx(&skc, &mp, &[0u8; 32], &refmodel::SignOpts { max_iters: 700, ..Default::default() }).1.kappa_final)
+            })
+            .collect();
+        let Ok(Ok(sk)) = (api.sk_from_bytes)(&skb) else { continue };
+        for t in targets {
+            // kappa_final = l * iterations; the accepted attempt used counters kappa_final - l .. kappa_final - 1
+            match infos.iter().find(|(_, k)| *k >= t + p.l) {
+                None => rep.caps_hit.push(format!("ML-DSA-{}: no message with ExpandMask counter >= {t} within {cap} reference signatures", p.id)),
+                Some(&(i, k)) => {
+                    let m = format!("kappa-search-{i}").into_bytes();
+                    for mode in EXTERNAL_MODES {
+                        let want_k = if mode == Mode::Pure { k } else { 0 };
+                        let want = refmodel::sign(&skc, mode, &m, b"", &[0u8; 32]).unwrap();
+                        let mut rng = ScriptRng::ok(&[0u8; 32]);
+                        rep.count(&format!("model_selected:kappa>={t}"), 1);
+                        rep.nontrivial_case(fnv(&[&m[..], &[mode as u8, p.id as u8]].concat()));
+                        let pr = Probe { mode, msg: m.clone(), ctx: vec![], rnd: [0u8; 32] };
+                        let replay = json!({"engine":"api","set":p.id,"ops":[{"op":"sk_from_bytes","sk":hex(&skb)},{"op":"sign","probe":pr.json_full(),"expect":hex(&want)}]});
+                        match sk.sign(mode, &mut rng, &m, b"") {
+                            Ok(Ok(s)) if s == want => {}
+                            other => rep.violate(Violation {
+                                key: format!("c03:kappa>={t}:{mode:?}"),
+                                summary: format!("ML-DSA-{} mode {mode:?}: signature differs from the reference for a message whose accepted attempt uses ExpandMask counter {} (>= {t}): {:?}", p.id, want_k, other.map(|r| r.map(|_| "different bytes"))),
+                                replay,
+                            }),
+                        }
+                    }
+                }
+            }
+        }
+        // the C01 hard cases (>= 10 iterations, late rejections, extremal norms) through the differential oracle
+        let kg = refmodel::keygen_internal(p, &alpha::counter32(cx.seed, "seed", 0));
+        let skc = SkCtx::new(p, &kg.sk);
+        let (cases, _) = hard_cases(p, &skc, cx.tier.pick(3_000, 50_000));
+        if let Ok(Ok(sk)) = (api.sk_from_bytes)(&kg.sk) {
+            for hc in &cases {
+                let want = refmodel::sign(&skc, Mode::Pure, &hc.msg, b"", &hc.rnd).unwrap();
+                let mut rng = ScriptRng::ok(&hc.rnd);
+                rep.count(&format!("hard:{}", hc.class), 1);
+                rep.nontrivial_case(fnv(&[&hc.msg[..], &[p.id as u8]].concat()));
+                match sk.sign(Mode::Pure, &mut rng, &hc.msg, b"") {
+                    Ok(Ok(s)) if s == want => {}
+                    _ => rep.violate(Violation {
+                        key: format!("c03:hard:{}", hc.class),
+                        summary: format!("ML-DSA-{}: signature differs from the reference on hard case '{}'", p.id, hc.class),
+                        replay: json!({"engine":"api","set":p.id,"ops":[{"op":"sk_from_bytes","sk":hex(&kg.sk)},{"op":"sign","probe":Probe{mode:Mode::Pure,msg:hc.msg.clone(),ctx:vec![],rnd:hc.rnd}.json_full(),"expect":hex(&want)}]}),
+                    }),
+                }
+            }
+        }
+    }
     rep.require_class("import:s_all_plus_eta");
     rep.require_class("import:t0_all_max");
 }
@@ -299,6 +368,60 @@ fn find_rare_seeds(p: &'static Params, verif_seed: u64, cap: u64) -> RareSeeds {
     out.rej_topbit_only = None;
     out
 }
+
+/// Model-selected seeds for rare whole-keygen events (full reference KeyGen per counter seed, cached on disk
+/// because the search only involves the reference): t = A s1 + s2 wraps past q, wraps below 0, a t coefficient = 0.
+pub fn rare_keygen_seeds(p: &'static Params, verif_seed: u64, cap: u64) -> Vec<(String, [u8; 32])> {
+    let cache = format!("{}/mc/target/cache/rarekg_{}_{}_{}.json", crate::report::verif_root(), p.id, verif_seed, cap);
+    if let Ok(text) = std::fs::read_to_string(&cache) {
+        if let Ok(v) = serde_json::from_str::<Vec<(String, String)>>(&text) {
+            return v.into_iter().map(|(n, h)| (n, refmodel::unhex(&h).try_into().unwrap())).collect();
+        }
+    }
+    let names = ["t_wraps_past_q", "t_wraps_below_0", "t_coeff=0"];
+    let mut found: Vec<Option<u64>> = vec![None; names.len()];
+    let chunk = 4096u64;
+    let mut base = 0;
+    while base < cap && found[..2].iter().any(|f| f.is_none()) {
+        let hits: Vec<(u64, [bool; 3])> = (base..base + chunk)
+            .into_par_iter()
+            .map(|i| {
+                let kg = refmodel::keygen_internal(p, &alpha::counter32(verif_seed, "rarekg", i));
+                let mut h = [false; 3];
+                for k in 0..p.k {
+                    for n in 0..256 {
+                        let t = i64::from(kg.t[k][n]);
+                        let s2 = i64::from(kg.s2[k][n]);
+                        let as1 = refmodel::mod_q(t - s2);
+                        if as1 + s2 >= refmodel::Q {
+                            h[0] = true;
+                        }
+                        if as1 + s2 < 0 {
+                            h[1] = true;
+                        }
+                        if t == 0 {
+                            h[2] = true;
+                        }
+                    }
+                }
+                (i, h)
+            })
+            .collect();
+        for (i, h) in hits {
+            for e in 0..3 {
+                if h[e] && found[e].is_none() {
+                    found[e] = Some(i);
+                }
+            }
+        }
+        base += chunk;
+    }
+    let out: Vec<(String, [u8; 32])> = names.iter().zip(found.iter()).filter_map(|(n, f)| f.map(|i| (n.to_string(), alpha::counter32(verif_seed, "rarekg", i)))).collect();
+    let _ = std::fs::create_dir_all(format!("{}/mc/target/cache", crate::report::verif_root()));
+    let _ = std::fs::write(&cache, serde_json::to_string(&out.iter().map(|(n, s)| (n.clone(), hex(s))).collect::<Vec<_>>()).unwrap());
+    out
+}
+pub fn rare_cap(tier: Tier) -> u64 { tier.pick(81_920, 409_600) }
 
 fn keygen_case(api: &'static SetApi, xi: &[u8; 32], class: &str) -> (Option<Violation>, Vec<String>) {
     let p = api.p;
@@ -377,6 +500,15 @@ pub fn c04(cx: &Ctx, rep: &mut Report) {
                 Some(i) => seeds.push((alpha::counter32(cx.seed, "rare", i), format!("model_selected:{name}"))),
                 None => rep.caps_hit.push(format!("ML-DSA-{}: no seed with {name} within {cap} sampler-only runs", p.id)),
             }
+        }
+        let rk = rare_keygen_seeds(p, cx.seed, rare_cap(cx.tier));
+        for need in ["t_wraps_past_q", "t_wraps_below_0"] {
+            if !rk.iter().any(|(n, _)| n == need) {
+                rep.caps_hit.push(format!("ML-DSA-{}: no seed with {need} within {} reference key generations", p.id, rare_cap(cx.tier)));
+            }
+        }
+        for (n, xi) in rk {
+            seeds.push((xi, format!("model_selected:{n}")));
         }
         let results: Vec<(Option<Violation>, Vec<String>)> = seeds.par_iter().map(|(xi, class)| keygen_case(api, xi, class)).collect();
         for ((xi, class), (v, tags)) in seeds.iter().zip(results) {
@@ -528,6 +660,33 @@ pub fn c09(cx: &Ctx, rep: &mut Report) {
                 sk_roundtrip_case(api, &skb, &format!("one-hot s-field poly {poly} coeff {pos} value {v}"))
             })
             .collect();
+        // out-of-range s-field values: whether they are accepted is C10's business; IF one is accepted it must
+        // serialise back to identical bytes like every other accepted key
+        let nv = 1u32 << eb;
+        let mut ocases: Vec<(usize, usize, u32)> = Vec::new();
+        for &poly in &spolys {
+            for pos in [0usize, 1, 255] {
+                for v in nvals..nv {
+                    ocases.push((poly, pos, v));
+                }
+            }
+        }
+        let oviol: Vec<Violation> = ocases
+            .par_iter()
+            .filter_map(|&(poly, pos, v)| {
+                let mut skb = base.sk.clone();
+                set_field(&mut skb, 128 * 8 + (poly * 256 + pos) * eb, eb, v);
+                match (api.sk_from_bytes)(&skb) {
+                    Ok(Err(_)) => None,
+                    _ => sk_roundtrip_case(api, &skb, &format!("ACCEPTED out-of-range s-field poly {poly} coeff {pos} value {v}")),
+                }
+            })
+            .collect();
+        rep.count("sk_out_of_range_s_if_accepted", ocases.len() as u64);
+        rep.nontrivial_by_construction(ocases.len() as u64);
+        for v in oviol {
+            rep.violate(v);
+        }
         rep.count("sk_one_hot_s", scases.len() as u64);
         rep.nontrivial_by_construction(scases.len() as u64);
         for v in viol {
@@ -684,9 +843,11 @@ pub fn c11(cx: &Ctx, rep: &mut Report) {
     rep.rule = "E1 with the Derive-centred oracle: from every private-key state (generated by both entry points, round-tripped, cloned, and compositions to the depth bound) get_public_key must return an object whose raw struct bytes (incl. the cached tr that serialisation ignores) equal the generated public key's; plus into_bytes equality with the reference and decision equality on valid / perturbed / wrong-context signatures between generated, deserialised and derived public keys. Non-trivial = verification probe through a derived or deserialised key (the suite never verifies with one).".into();
     let probes = alpha::probes_small(cx.seed, &EXTERNAL_MODES);
     run_e1_all(cx, rep, Oracles { c11: true, c01: true, ..Default::default() }, &probes, cx.tier.pick(3, 5), false, true);
-    let seeds = alpha::seeds(cx.tier, cx.seed);
+    let base_seeds = alpha::seeds(cx.tier, cx.seed);
     for api in APIS {
         let p = api.p;
+        let mut seeds = base_seeds.clone();
+        seeds.extend(rare_keygen_seeds(p, cx.seed, rare_cap(cx.tier)).into_iter().map(|(_, s)| s));
         for xi in &seeds {
             let want = refmodel::keygen_internal(p, xi);
             let Ok((pk_gen, sk_gen)) = (api.keygen_seed)(xi) else { continue };
